@@ -73,6 +73,8 @@ def describe(v, dialect):
         return "int"
     if isinstance(v, float):
         r = repr(v)
+        if v != v or v in (float("inf"), float("-inf")):
+            return "float:non-finite"
         return "float:exp" if "e" in r else ("float:neg-zero" if r == "-0.0"
                                              else "float")
     if isinstance(v, str):
